@@ -213,8 +213,13 @@ func workers() int {
 
 // RunPkt explores scenarios and reports for property prop.
 func RunPkt(prop, tier string, models []*PktModel, depth []int, budget time.Duration, assumptions []string) int {
+	return RunPktExtra(prop, tier, models, depth, budget, assumptions, nil)
+}
+
+// RunPktExtra is RunPkt with findings produced by additional scripted comparisons.
+func RunPktExtra(prop, tier string, models []*PktModel, depth []int, budget time.Duration, assumptions []string, extra []explore.Finding) int {
 	start := time.Now()
-	var all []explore.Finding
+	all := append([]explore.Finding{}, extra...)
 	cov := map[string]any{}
 	states, trans := 0, 0
 	exhaustive := true
